@@ -262,7 +262,7 @@ def run(pid, tier):
     mc_stage(tier, cov)
     scs = build_scenarios(pid, tier, cov)
     tpath = run_driver(bindir, scs, wd)
-    info = validate_trace("Trace_Coroutine", "Trace_Coroutine.cfg", tpath, timeout=1800)
+    info = validate_auto("Trace_Coroutine", "Trace_Coroutine.cfg", tpath, timeout=1800)
     if info["consumed"] != info["total"]:
         raise ToolError("trace not fully consumed (%s of %s)" % (info["consumed"], info["total"]))
     byid = {s["id"]: s for s in scs}
